@@ -186,19 +186,23 @@ pub fn run(run: &mut Run) {
                         // --require: exactly one require, directly after the preamble
                         let text = String::from_utf8_lossy(&o_stdout.stdout).to_string();
                         // the argument is placed directly in a `require`, minus a `.lua` suffix
-                        let needle_s = format!("require \"{}\"", require.map(|r| r.strip_suffix(".lua").unwrap_or(r)).unwrap_or("mymod"));
-                        let needle = needle_s.as_str();
-                        let count = text.matches(needle).count();
+                        let module = require.map(|r| r.strip_suffix(".lua").unwrap_or(r)).unwrap_or("mymod");
+                        // `require "M"`, `require 'M'`, `require("M")`, `require('M')` all name module M
+                        let spellings: Vec<String> = vec![format!("require \"{}\"", module), format!("require '{}'", module), format!("require(\"{}\")", module), format!("require('{}')", module)];
+                        let count: usize = spellings.iter().map(|n| text.matches(n.as_str()).count()).sum();
+                        let needle = spellings.iter().find(|n| text.contains(n.as_str())).cloned().unwrap_or_else(|| spellings[0].clone());
+                        let needle = needle.as_str();
+                        let all_requires = text.lines().filter(|l| l.trim_start().starts_with("require")).count();
                         match require {
                             Some(_) => {
-                                if text.matches("require \"").count() != 1 || count != 1 || !text[preamble.len().min(text.len())..].starts_with(needle) || !text.starts_with(&preamble) {
+                                if all_requires != 1 || count != 1 || !text[preamble.len().min(text.len())..].starts_with(needle) || !text.starts_with(&preamble) {
                                     fail(&mut st, "require-placement", desc(Mode::OutStdout, None), format!("{} occurrences; text after the preamble starts with {:?}", count, text[preamble.len().min(text.len())..].chars().take(40).collect::<String>()), &a);
                                 } else {
                                     st.outcome("require-once-after-preamble");
                                 }
                             }
                             None => {
-                                if text.contains("require \"") {
+                                if all_requires != 0 {
                                     fail(&mut st, "require-without-flag", desc(Mode::OutStdout, None), String::new(), &a);
                                 }
                             }
@@ -206,7 +210,16 @@ pub fn run(run: &mut Run) {
                     } else {
                         // every error is printed
                         let out = String::from_utf8_lossy(&o_stdout.stdout).to_string();
-                        let headings = out.lines().filter(|l| l.starts_with("syntax error:") || l.starts_with("typecheck error:") || l.starts_with("compile error:") || l.starts_with("git conflict error:") || (l.starts_with("File '") && l.ends_with("not found"))).count();
+                        // a printed error = an unindented line that names a source location (`....sy:<line>`) or a
+                        // missing file, whatever the wording of the heading
+                        let headings = out
+                            .lines()
+                            .filter(|l| {
+                                let unindented = !l.starts_with(' ') && !l.starts_with('\t');
+                                let names_location = l.match_indices(".sy:").any(|(i, _)| l[i + 4..].chars().next().map(|c| c.is_ascii_digit()).unwrap_or(false));
+                                unindented && (names_location || (l.contains("File '") && l.contains("not found")) || l.to_lowercase().contains("no such file"))
+                            })
+                            .count();
                         if headings < n_errors {
                             fail(&mut st, "errors-not-all-printed", desc(Mode::OutStdout, None), format!("{} errors expected, {} printed:\n{}", n_errors, headings, out), &a);
                         } else {
